@@ -8,6 +8,16 @@ checks = {
    technique="exhaustive enumeration of read segmentations and single damage events on the real CobsWrapper (bounded model checking of the implementation against a list reference model)",
    text="Every segmentation (all 2^(n-1) for short streams, all <=k cut sets for long ones) of every frame sequence over a boundary alphabet, and every single damage event at every position, is executed on the real CobsWrapper.Read/Write; the returned frames are compared with the written list. Exhaustive within the stated bounds, which is the right level for a pure sequential decoder whose bugs depend on where reads are cut.",
    note="Alphabet of payloads (incl. 0xff block boundary, buffer limit) rather than all byte strings; zero-length frames excluded; trusted: Go toolchain, scripted io.ReadWriteCloser."),
+ "C10": dict(
+   category="exploration", design_ref="DESIGN.md §3 C10",
+   technique="exhaustive enumeration of values and of all ordered value pairs per supported field kind through the real Encode/Decode/DiffPoints/MergePoints (bounded model checking of the implementation against value equality)",
+   text="For every supported field kind, every value of a boundary alphabet (thorough: all int slices over {0,1,2} up to length 4, all maps over 4 keys x 3 values) is round-tripped, and every ordered pair (a,b) is pushed through Diff then Merge on the decoded a; a 4-field struct is enumerated as a full product to show fields do not interfere; child lists are decoded for every type mix of up to 3 children. Exhaustive over the alphabets.",
+   note="Value alphabets, not all values; nil and empty slices/maps identified; map key \"\" excluded (the encoding defines it as \"0\"); NaN excluded."),
+ "C11": dict(
+   category="exploration", design_ref="DESIGN.md §3 C11",
+   technique="exhaustive enumeration of point lists (length 1 full product, all ordered pairs and triples over reduced alphabets) through Decode/MergePoints/MergeEdgePoints for every field kind and prior value, with recover() as crash oracle and a differential oracle for undeclared types",
+   text="Every point list up to the stated length over an alphabet of hostile keys, values (NaN, Inf, 2^63, 2^64), tombstone counts (negative, odd, even) is decoded into every supported field kind, zero and populated; a panic, a change caused by undeclared types, or a result that differs from the result without the undeclared points is a violation.",
+   note="Alphabets chosen around the shortcuts in decode.go (index parsing, KeyMaxInt, tombstone parity, overflow checks)."),
 }
 pending_reason = "check not built yet in this round (planned in DESIGN.md §3); not claimed until its harness exists"
 m = {
